@@ -510,7 +510,7 @@ func runC19(c *checker) {
 	if err != nil {
 		fatal("%v", err)
 	}
-	nProg, nVal := pick(6, 50), pick(12, 40)
+	nProg, nVal := pick(8, 80), pick(16, 40)
 	if *programs > 0 {
 		nProg = *programs
 	}
